@@ -46,6 +46,14 @@ namespace vpsc {
 static const double ZERO_UPPERBOUND=-1e-10;
 static const double LAGRANGIAN_TOLERANCE=-1e-4;
 
+#ifdef ADAPTAGRAMS_VERIF
+VerifEmitFn verif_emit = nullptr;
+#define VERIF_EMIT(ev, a, b) \
+    do { if (verif_emit) verif_emit(ev, a, b); } while (0)
+#else
+#define VERIF_EMIT(ev, a, b) do { } while (0)
+#endif
+
 IncSolver::IncSolver(Variables const &vs, Constraints const &cs) 
     : Solver(vs,cs)
 {
@@ -214,6 +222,7 @@ bool IncSolver::solve() {
     ofstream f(LOGFILE,ios::app);
     f<<"solve_inc()..."<<endl;
 #endif
+    VERIF_EMIT("SolveBegin", nullptr, nullptr);
     satisfy();
     double lastcost = DBL_MAX, cost = bs->cost();
     while(fabs(lastcost-cost)>0.0001) {
@@ -225,6 +234,7 @@ bool IncSolver::solve() {
 #endif
     }
     copyResult();
+    VERIF_EMIT("SolveEnd", nullptr, nullptr);
     return bs->size()!=n; 
 }
 /**
@@ -245,6 +255,7 @@ bool IncSolver::satisfy() {
     ofstream f(LOGFILE,ios::app);
     f<<"satisfy_inc()..."<<endl;
 #endif
+    VERIF_EMIT("SatisfyBegin", nullptr, nullptr);
     splitBlocks();
     //long splitCtr = 0;
     Constraint* v = nullptr;
@@ -256,10 +267,12 @@ bool IncSolver::satisfy() {
         Block *lb = v->left->block, *rb = v->right->block;
         if(lb != rb) {
             lb->merge(rb,v);
+            VERIF_EMIT("Merge", v, nullptr);
         } else {
             if(lb->isActiveDirectedPathBetween(v->right,v->left)) {
                 // cycle found, relax the violated, cyclic constraint
                 v->unsatisfiable=true;
+                VERIF_EMIT("Unsat", v, nullptr);
                 continue;
                 //UnsatisfiableException e;
                 //lb->getActiveDirectedPathBetween(e.path,v->right,v->left);
@@ -278,8 +291,10 @@ bool IncSolver::satisfy() {
                     inactive.push_back(splitConstraint);
                 } else {
                     v->unsatisfiable=true;
+                    VERIF_EMIT("Unsat", v, nullptr);
                     continue;
                 }
+                VERIF_EMIT("SplitBetween", v, splitConstraint);
             } catch(UnsatisfiableException e) {
                 e.path.push_back(v);
 #ifdef LIBVPSC_DEBUG
@@ -291,6 +306,7 @@ bool IncSolver::satisfy() {
                 }
 #endif
                 v->unsatisfiable=true;
+                VERIF_EMIT("Unsat", v, nullptr);
                 continue;
             }
             if(v->slack()>=0) {
@@ -299,9 +315,11 @@ bool IncSolver::satisfy() {
                 inactive.push_back(v);
                 bs->insert(lb);
                 bs->insert(rb);
+                VERIF_EMIT("SplitKept", v, nullptr);
             } else {
                 bs->insert(lb->merge(rb,v));
                 delete ((lb->deleted) ? lb : rb);
+                VERIF_EMIT("SplitRemerged", v, nullptr);
             }
         }
 #ifdef LIBVPSC_LOGGING
@@ -331,6 +349,7 @@ bool IncSolver::satisfy() {
     printBlocks();
 #endif
     copyResult();
+    VERIF_EMIT("SatisfyEnd", nullptr, nullptr);
     return activeConstraints;
 }
 void IncSolver::moveBlocks() {
@@ -381,6 +400,7 @@ void IncSolver::splitBlocks() {
             b->deleted=true;
             COLA_ASSERT(!v->active);
             inactive.push_back(v);
+            VERIF_EMIT("Split", v, nullptr);
 #ifdef LIBVPSC_LOGGING
             f<<"  new blocks: "<<*l<<" and "<<*r<<endl;
 #endif
@@ -391,6 +411,7 @@ void IncSolver::splitBlocks() {
     f<<"  finished splits."<<endl;
 #endif
     bs->cleanup();
+    VERIF_EMIT("SplitsDone", nullptr, nullptr);
 }
 
 /**
